@@ -13,6 +13,9 @@ from eudoxia.executor.assignment import Assignment, Suspend
 from eudoxia.utils import Priority
 
 PRIO = {"Q": Priority.QUERY, "I": Priority.INTERACTIVE, "B": Priority.BATCH_PIPELINE}
+SV = {id(s): s.value for s in OperatorState}     # enum hashing/.value are slow; identity lookup is not
+ALL_STATES = list(OperatorState)
+_TL_CACHE = {}
 
 # ---------------------------------------------------------------------------
 # transition log (class-level wrapper, active only while a World is current)
@@ -246,7 +249,10 @@ class World:
     # -- executor phase ------------------------------------------------------
     def timeline_of(self, a):
         ops = [self.specs.get(op) or spec_from_op(op) for op in a["ops"]]
-        tl = unique_timeline(ops, a["cpu"], self.tps)
+        key = (tuple(tuple((g.get("cpu"), g.get("scaling"), g.get("mem"), g.get("read")) for g in o) for o in ops), a["cpu"], self.tps)
+        tl = _TL_CACHE.get(key, 0)
+        if tl == 0:
+            tl = _TL_CACHE[key] = unique_timeline(ops, a["cpu"], self.tps)
         if tl is None:
             raise AmbiguousScenario()
         return tl
@@ -425,7 +431,7 @@ class World:
         # pool figures and live sets
         for pid, p in enumerate(ex.pools):
             mp = m.pools[pid]
-            if Fr(p.avail_cpu_pool) != mp.free_cpu or not near(Fr(p.avail_ram_pool), mp.free_ram):
+            if (p.avail_cpu_pool != mp.free_cpu or p.avail_ram_pool != mp.free_ram) and (Fr(p.avail_cpu_pool) != mp.free_cpu or not near(Fr(p.avail_ram_pool), mp.free_ram)):
                 tags = {"C03"}
                 if any(rc.status in ("susp",) for rc in mp.live) or any(t["pool"] == pid and t["end"] >= self.tick - 1 for t in self.susp_track.values()):
                     tags |= {"C10"}
@@ -449,9 +455,9 @@ class World:
                         tot += Fr(c.get_current_memory_usage())
                     continue
                 tot += rc.mem
-                if not near(Fr(c.get_current_memory_usage()), rc.mem):
+                if c.get_current_memory_usage() != rc.mem and not near(Fr(c.get_current_memory_usage()), rc.mem):
                     self.flag({"C04", "C05"}, "container-memory-mismatch", f"tick {self.tick} container {k}: uses {c.get_current_memory_usage()}, model {float(rc.mem)}")
-            if abs(Fr(p.get_consumed_ram_gb()) - tot) > Fr(1, 10**6):
+            if p.get_consumed_ram_gb() != tot and abs(Fr(p.get_consumed_ram_gb()) - tot) > Fr(1, 10**6):
                 self.flag({"C04"}, "reported-usage-mismatch", f"tick {self.tick} pool {pid}: reports {p.get_consumed_ram_gb()}, running containers use {float(tot)}")
         for s in sus:
             k = self.key_of_cid.get(s.container_id)
@@ -542,23 +548,31 @@ class World:
 
     # -- phase-boundary checks on ground truth ------------------------------
     def boundary_checks(self):
+        shadow = self.shadow
         for p in self.pipelines:
             st = p.runtime_status()
+            states = st.operator_states
             cnt = {}
-            for op, s in st.operator_states.items():
-                cnt[s] = cnt.get(s, 0) + 1
-                if self.shadow.get(op, P) != s.value:
-                    self.flag({"C02", "C01"}, "untracked-change", f"{self.name(op)} is {s.value} but the transition log says {self.shadow.get(op, P)}")
-                if s.value in (R, C):
+            ncomp = 0
+            for op, s in states.items():
+                v = SV[id(s)]
+                cnt[v] = cnt.get(v, 0) + 1
+                if shadow.get(op, P) != v:
+                    self.flag({"C02", "C01"}, "untracked-change", f"{self.name(op)} is {v} but the transition log says {shadow.get(op, P)}")
+                if v == C:
+                    ncomp += 1
+                if (v == R or v == C) and op.parents:
                     for par in op.parents:
-                        if st.operator_states[par].value != C:
-                            self.flag({"C01"}, "running-with-unfinished-parent", f"{self.name(op)} is {s.value}, parent {self.name(par)} is {st.operator_states[par].value}")
+                        pv = SV[id(states[par])]
+                        if pv != C:
+                            self.flag({"C01"}, "running-with-unfinished-parent", f"{self.name(op)} is {v}, parent {self.name(par)} is {pv}")
                         elif self.completed_seq.get(par, 1 << 60) > self.started_seq.get(op, -1):
                             self.flag({"C01"}, "parent-completed-after-start", f"{self.name(op)} started at log #{self.started_seq.get(op)}, parent {self.name(par)} completed at #{self.completed_seq.get(par)}")
-            for s in OperatorState:
-                if st.state_counts.get(s, 0) != cnt.get(s, 0):
-                    self.flag({"C02", "C06"}, "histogram-wrong", f"{p.pipeline_id}: counts {s.value}={st.state_counts.get(s)} recount {cnt.get(s, 0)}")
-            if st.is_pipeline_successful() != all(s == OperatorState.COMPLETED for s in st.operator_states.values()):
+            sc = st.state_counts
+            for s in ALL_STATES:
+                if sc.get(s, 0) != cnt.get(SV[id(s)], 0):
+                    self.flag({"C02", "C06"}, "histogram-wrong", f"{p.pipeline_id}: counts {s.value}={sc.get(s)} recount {cnt.get(s.value, 0)}")
+            if st.is_pipeline_successful() != (ncomp == len(states)):
                 self.flag({"C02", "C06"}, "success-flag-wrong", f"{p.pipeline_id}")
 
 
